@@ -108,6 +108,11 @@ let apply (toks : string list) (buf : Buffer.t) =
   let arr = Array.of_list toks in
   let u i = int_of_string arr.(i) in
   let nv i = n_of_string arr.(i) in
+  (* payload normalisation of the harness component types: C1 is zero-sized, C4 holds 32 bits *)
+  let nvc c i =
+    if c = 1 then N0
+    else if c = 4 then n_of_string (string_of_int (int_of_string arr.(i) land 0xFFFFFFFF))
+    else n_of_string arr.(i) in
   let ret = ref "none" in
   let evs = ref "ev " in
   let single ws (o : op) =
@@ -145,14 +150,14 @@ let apply (toks : string list) (buf : Buffer.t) =
      !worlds.(ws) <- None
    | "ins" ->
      let k = u 3 in
-     let ent = List.init k (fun j -> (nat_of_int (u (4 + 2 * j)), nv (5 + 2 * j))) in
+     let ent = List.init k (fun j -> (nat_of_int (u (4 + 2 * j)), nvc (u (4 + 2 * j)) (5 + 2 * j))) in
      single (u 1) (Insert ent)
    | "ext" ->
      let k = u 3 in
      let cs = List.init k (fun j -> nat_of_int (u (4 + j))) in
      let rows = u (4 + k) in
      let base = 5 + k in
-     let rws = List.init rows (fun r -> List.init k (fun j -> nv (base + r * k + j))) in
+     let rws = List.init rows (fun r -> List.init k (fun j -> nvc (u (4 + j)) (base + r * k + j))) in
      single (u 1) (Extend (cs, rws))
    | "rem" -> single (u 1) (Remove (parse_eid arr.(2)))
    | "clr" ->
@@ -161,9 +166,9 @@ let apply (toks : string list) (buf : Buffer.t) =
        then List.map shape_of_bits (Array.to_list (Array.sub arr 3 (Array.length arr - 3)))
        else [] in
      single (u 1) (Clear order)
-   | "ead" -> single (u 1) (EntryAdd (parse_eid arr.(2), nat_of_int (u 3), nv 4))
+   | "ead" -> single (u 1) (EntryAdd (parse_eid arr.(2), nat_of_int (u 3), nvc (u 3) 4))
    | "erm" -> single (u 1) (EntryRemove (parse_eid arr.(2), nat_of_int (u 3)))
-   | "wrt" -> single (u 1) (WriteMut (parse_eid arr.(2), nat_of_int (u 3), nv 4))
+   | "wrt" -> single (u 1) (WriteMut (parse_eid arr.(2), nat_of_int (u 3), nvc (u 3) 4))
    | "rsv" ->
      let k = u 3 in
      let cs = List.init k (fun j -> nat_of_int (u (4 + j))) in
